@@ -25,6 +25,7 @@ event = st.one_of(
     st.tuples(st.just("hang"), st.integers(0, 3), st.sampled_from(["hung", "hung-ignore-abrt"])),
     st.tuples(st.just("exit"), st.integers(0, 3), st.sampled_from([0, 1 << 8, 9])),
     st.tuples(st.just("sig"), st.lists(st.sampled_from(["SIGTTIN", "SIGTTOU"]), min_size=1, max_size=2)),
+    st.tuples(st.just("hup"), st.integers(1, 3)),
     st.tuples(st.just("tick")),
     st.tuples(st.just("tick")),
 )
@@ -116,6 +117,8 @@ def run_case(case):
             if ev[0] == "sig":
                 for s in ev[1][:5]:
                     target = target + 1 if s == "SIGTTIN" else (target - 1 if target > 1 else target)
+            elif ev[0] == "hup":
+                target = ev[1]
         live = sorted(p.pid for p in k.live())
         if live != sorted(arb.WORKERS) or len(live) != target:
             V("pool-restored", "pool-not-restored-after-hang", {"live": live, "tracked": sorted(arb.WORKERS), "target": target},
